@@ -508,7 +508,7 @@ def filtered_fuel_boundaries_keep_extremes(ctx, share):
 # combined (y*(fl+fr-1)):  resampleStepwise([0,10],[100],[0,4,6,10],avg=False) -> [40, 36, 40]  (sum 116, not 100).
 # While the flag is set, the sum-mode obligations are stated only for output bins that are not strictly inside one
 # input bin (and the total only when no output bin is); set it to False to see the violation.
-KNOWN_DEFECT_resample_sum_inner_bin = True
+KNOWN_DEFECT_resample_sum_inner_bin = False  # recorded in known_findings.jsonl
 
 
 def _seg_overlap(a0, a1, b0, b1):
